@@ -40,9 +40,9 @@ type BedRec struct {
 
 // BedFile is a list of records of struct type N written at column count M <= N.
 type BedFile struct {
-	N     int      `json:"n"`
-	M     int      `json:"m"`
-	Route int      `json:"route,omitempty"` // see GenRoute
+	N     int `json:"n"`
+	M     int `json:"m"`
+	Route int `json:"route,omitempty"` // see GenRoute
 	// Generic: the values handed to the writer are not the package's BedN structs
 	// but some other feat.Feature located on a bed.Chrom (the writer's second
 	// path): 1 = it also has a score and an orientation, 2 = it has neither
@@ -518,7 +518,10 @@ func GenGffFile(t *rapid.T, maxItems int) GffFile {
 			case 1:
 				// ##source-version line (written through WriteMetaData(string))
 				it.Kind = "source-version"
-				it.Text = genBlankFreeToken(t, "srcver-prog") + " " + genBlankFreeToken(t, "srcver-ver")
+				it.Text = genBlankFreeToken(t, "srcver-prog")
+				if rapid.IntRange(0, 2).Draw(t, "srcver-words") > 0 {
+					it.Text += " " + genBlankFreeToken(t, "srcver-ver")
+				}
 			default:
 				it.Kind = "comment"
 				if rapid.Bool().Draw(t, "comment-nonempty") {
